@@ -6,8 +6,31 @@ from vlib.registry import PROPS, NOT_APPLICABLE
 
 LEVEL_NOTE = ("Trusted: Lean 4.33 kernel; axioms propext/Classical.choice/Quot.sound only; the hand-written "
               "Spec of std (validated against real std every run); the correspondence harness/driver/comparator; "
-              "rustc/cargo. The theorems are about the Lean model; the model is tied to /repo by differential "
-              "execution on every run, not by translation.")
+              "rustc/cargo. The property theorems are about the hand-written Lean model; the model is tied to /repo "
+              "(a) by differential execution on every run and (b), for the functions listed in translator/targets.txt, "
+              "by translation: rs2lean regenerates their Lean definitions from /repo's macro-expanded source on every "
+              "run and kernel-checked equivalence theorems (regenerated definition = model definition, no panic / "
+              "overflow / out-of-bounds raw-parts) are re-checked against the regenerated text (DESIGN.md section 11); "
+              "trusted there: the translator and Rs/Prelude.lean's reading of Rust semantics.")
+
+ROOT = os.path.dirname(os.path.dirname(os.path.abspath(__file__)))
+
+
+def extracted_note(pid):
+    """modules and theorem counts of the second tie for one property"""
+    ob = os.path.join(ROOT, "lean", "obligations")
+    p = os.path.join(ob, pid + ".extracted.txt")
+    if not os.path.exists(p):
+        return "", 0
+    mods = [l.split()[1] for l in open(p) if l.startswith("use ")]
+    n = 0
+    for m in mods:
+        n += sum(1 for l in open(os.path.join(ob, "equiv", m + ".txt")) if l.strip() and not l.startswith("#") and not l.startswith("import "))
+    if not mods:
+        return "", 0
+    return (f" Second tie for this property: {n} equivalence theorems over the regenerated definitions of the groups "
+            f"{', '.join(mods)} (lean/KonstVerif/Extracted/Equiv/); a change to the text of any of those functions either keeps "
+            f"them checking or is reported."), n
 checks = []
 for pid in sorted(PROPS):
     P = PROPS[pid]
@@ -19,8 +42,9 @@ for pid in sorted(PROPS):
         "replay_cmd_template": f"./check {pid} --replay {{path}}",
         "engine": "lean4-model+correspondence",
         "level_claimed": {"category": P["level"], "text": P["claim"], "design_ref": P.get("design_ref", f"DESIGN.md section 6, {pid}")},
-        "level_note": LEVEL_NOTE + " " + P.get("level_note", ""),
-        "technique": P.get("technique", "Lean 4 machine-checked proof over a hand-written model + differential correspondence check against /repo"),
+        "level_note": LEVEL_NOTE + " " + P.get("level_note", "") + extracted_note(pid)[0],
+        "technique": P.get("technique", "Lean 4 machine-checked proof over a hand-written model + differential correspondence check against /repo")
+                     + ("; model definitions regenerated from the source by a translator (rs2lean) with kernel-checked equivalence theorems" if extracted_note(pid)[1] else ""),
     })
 m = {
     "version": 1,
@@ -35,7 +59,7 @@ m = {
     "engines": [{
         "name": "lean4-model+correspondence", "path": "/verif/check",
         "serves_properties": sorted(PROPS),
-        "kind_free_text": "Lean 4 theorems (lean/KonstVerif/Props) over an executable model; Rust harness + generated programs run the real code; compiled Lean driver runs the model on the same requests; three-way comparison impl/model/std",
+        "kind_free_text": "Lean 4 theorems (lean/KonstVerif/Props) over an executable model; translator rs2lean regenerates Lean definitions of the targeted functions from /repo's source on every run and the equivalence theorems Extracted.f = Model.f are re-checked; Rust harness + generated programs run the real code; compiled Lean driver runs the model on the same requests; three-way comparison impl/model/std",
     }],
     "checks": checks,
     "not_applicable": NOT_APPLICABLE,
